@@ -27,7 +27,7 @@ def main(argv):
     try:
         common.load_algopy()
         if replay:
-            return mod.replay(rep, replay)
+            return do_replay(pid, mod, rep, replay, tier, seed)
         return mod.run(rep, tier, seed)
     except common.Machinery as e:
         print("MACHINERY FAILURE (%s): %s" % (pid, e))
@@ -36,6 +36,41 @@ def main(argv):
         traceback.print_exc()
         print("MACHINERY FAILURE (%s): unexpected exception in the harness" % pid)
         return 2
+
+
+def do_replay(pid, mod, rep, path, tier, seed):
+    """re-runs the single behaviour stored in a replay file (machine / tracer behaviours); for the other kinds of
+    violation the check is re-run and the outcome for the stored signature is reported"""
+    import json
+    d = json.load(open(path))
+    sig, det = d["signature"], d["detail"]
+    print("replaying", sig)
+    algopy = common.load_algopy()
+    if isinstance(det, dict) and "initial_objects" in det and "behaviour" in det:
+        import utpm_replay as U
+        rp = U.Replayer(algopy, det["initial_objects"], variant=det.get("variant", 0))
+        try:
+            for rec in det["behaviour"]:
+                rp.step(rec)
+            if det.get("expected_state"):
+                rp.compare(det["expected_state"])
+            print("behaviour reproduces the specification's state: no violation"); return 0
+        except U.Mismatch as m:
+            print("VIOLATION property=%s replay=%s  # %s: %s" % (pid, path, m.clause, m.info)); return 1
+        except Exception as e:
+            print("VIOLATION property=%s replay=%s  # raises %r" % (pid, path, e)); return 1
+    if isinstance(det, dict) and "behaviour" in det and det["behaviour"] and "c" in det["behaviour"][0]:
+        import tracer_replay as T
+        P = len(next((e["pt"]["x"] for e in det["behaviour"] if e["c"] == "fwd"), [0]))
+        r = T.TracerReplayer(algopy, det["behaviour"], 2, max(P, 1), rec_kind=det.get("recording_kind", "U"),
+                             prefix="buffered" if "buffered" in str(det.get("config", "")) else "plain").run(T.recpt_for(max(P, 1)))
+        if r:
+            print("VIOLATION property=%s replay=%s  # %s" % (pid, path, r[0])); return 1
+        print("behaviour reproduces the specification's results: no violation"); return 0
+    rc = mod.run(rep, tier, seed)
+    again = any(s == sig for s, _ in rep.violations)
+    print("signature %s after re-running the check" % ("REPRODUCED" if again else "not reproduced"))
+    return 1 if again else 0
 
 
 if __name__ == "__main__":
